@@ -5,9 +5,10 @@ CONSTANTS
   VMag = 8
   Mixed = FALSE
   Dump = TRUE
+INVARIANT NoUB
 INVARIANT ImplAgreesOffHazards
 INVARIANT HazardsConfined
-INVARIANT HazardExact
+INVARIANT CropClamped
 INVARIANT MacrosSound
 INVARIANT RefSound
 INVARIANT RefShape
